@@ -16,6 +16,18 @@ for d in seeded/*-*/; do
   [ -f $d/neutralised ] && echo "$id: NOTE $(cat $d/neutralised)" >> $OUT
   git -C /repo checkout -- .
 done
+# behaviour-preserving changes (seeded/neutral/<name>/patch.diff): every listed check must stay quiet
+while read -r line; do
+  n=${line%%:*}; d=seeded/neutral/$n
+  [ -f $d/patch.diff ] || continue
+  if ! git -C /repo apply --check $PWD/$d/patch.diff 2>/dev/null; then echo "neutral $n: patch does not apply" >> $OUT; continue; fi
+  git -C /repo apply $PWD/$d/patch.diff
+  for p in ${line#*:}; do
+    r=$(./check $p quick 2>&1 | grep -E "^(OK|VIOLATION)" | head -1 | cut -c1-220)
+    echo "neutral $n: check $p -> $r" >> $OUT
+  done
+  git -C /repo checkout -- .
+done < seeded/neutral/checks.txt
 git -C /repo status --short
 # the translators ran on the changed trees: bring the generated Lean files back to /repo's own state
 python3 tools/gen_constants.py > /dev/null; python3 tools/gen_locks.py > /dev/null; python3 tools/gen_loops.py > /dev/null; python3 tools/gen_epoch.py > /dev/null
